@@ -11,6 +11,8 @@ import os
 import pickle
 import tempfile
 
+import math
+
 import numpy as np
 
 from . import build as B
@@ -186,9 +188,15 @@ class Recorder:
                 arg["w"] = to_float(op["w"])
                 if (op.get("rec") or B.RECMODE[0]) == "npdict":
                     arg["w"] = np.float64(arg["w"])
+                elif (op.get("rec") or B.RECMODE[0]) == "intdict" and math.isfinite(arg["w"]) and arg["w"] == int(arg["w"]):
+                    arg["w"] = int(arg["w"])
         elif kind == "FillNumpy":
             arg["data"] = B.batch(op["rows"], self.g)
             arg["before"] = arg["data"].tobytes()
+            arg["pass"] = arg["data"]
+            if op.get("bf") == "dict":        # a dict of columns
+                arg["pass"] = {k: arg["data"][k] for k in ("x", "y", "s", "c")}
+
             if op["wf"] == "scalar":
                 arg["w"] = to_float(op["wsc"])
             elif op["wf"] == "array":
@@ -230,9 +238,9 @@ class Recorder:
                 extra["same"] = r is O[op["s"]]
             elif kind == "FillNumpy":
                 if op["wf"] == "one":
-                    O[op["s"]].fill.numpy(arg["data"])
+                    O[op["s"]].fill.numpy(arg["pass"])
                 else:
-                    O[op["s"]].fill.numpy(arg["data"], arg["w"])
+                    O[op["s"]].fill.numpy(arg["pass"], arg["w"])
             elif kind == "Add":
                 O[op["t"]] = O[op["a"]] + O[op["b"]]
             elif kind == "Combine":
